@@ -176,7 +176,7 @@ Raise ==
 
 \* the body rebinds its parameter (only interesting for frames that will be resumed)
 Rebind(v) ==
-  /\ Running /\ fr[Top].st = "run" /\ Kind[fr[Top].f] = "gen" /\ fr[Top].cur # v
+  /\ Running /\ fr[Top].st = "run" /\ Kind[fr[Top].f] \in {"gen", "coro"} /\ fr[Top].cur # v
   /\ fr' = [fr EXCEPT ![Top].cur = v]
   /\ hist' = Append(hist, [op |-> "Rebind", f |-> fr[Top].f, id |-> Top, v |-> v, catch |-> TRUE, draw |-> 0])
   /\ UNCHANGED <<stack, truth, traces, skipped, logged>>
